@@ -78,6 +78,19 @@ CHECKS = {
              "String aliases / ExecAlias classification (regex, lexer) are outside; expand_path is the identity and no PATH search is done.",
         ref="DESIGN.md 4 C15",
     ),
+    "C08": dict(
+        text="Bounded model checking of command lookup over a model POSIX file system: locate_executable (execution's view) and "
+             "CommandsCache.locate_binary / membership / completion listing are run on the real executables.py and commands_cache.py code "
+             "for every layout of 3 $PATH directories x 2 names (absent, executable, non-executable, directory, broken link), a same-named "
+             "file in the cwd, $PATH values with missing, duplicate, symlinked, relative and empty entries, and then histories of "
+             "create / delete / chmod / replace / $PATH reverse, append, insert, pop / symlink re-pointing with all views re-checked "
+             "after every step against a POSIX search reference computed on the current model state. The solver case-splits the "
+             "finite-domain choices; every class is then executed on the real code.",
+        note="Bounds: $PATH length <=3, histories <=2 steps (quick) / 3 (thorough), one name in histories. The os module and pathlib.Path "
+             "seen by the two modules are a model FS whose contract (directory mtime changes iff an entry appears/disappears) is listed "
+             "in evidence. PATHEXT, stable-directory caching and what execvp really runs are outside. One defect repaired, one known finding listed.",
+        ref="DESIGN.md 4 C08",
+    ),
 }
 
 NA = {
